@@ -431,7 +431,7 @@ class Ctx:
                     pass
             return si, r
 
-        nthreads = min(NCPU, len(shards), max_shards or NCPU)
+        nthreads = min(int(os.environ.get('VERIF_SHARDS') or NCPU), len(shards), max_shards or NCPU)
         with ThreadPoolExecutor(nthreads) as ex:
             results = list(ex.map(one, range(len(shards))))
         for si, r in results:
